@@ -48,7 +48,7 @@ func (w *World) irWriters() map[string]map[string]string {
 		}
 	}
 	for _, fn := range w.SSAFuncs {
-		allInstrs(fn, false, func(f *ssa.Function, _ *ssa.BasicBlock, _ int, ins ssa.Instruction) {
+		allInstrsLocal(fn, false, func(f *ssa.Function, _ *ssa.BasicBlock, _ int, ins ssa.Instruction) {
 			st, ok := ins.(*ssa.Store)
 			if !ok {
 				return
@@ -58,7 +58,9 @@ func (w *World) irWriters() map[string]map[string]string {
 				return
 			}
 			if nt, ok := isIR(fa.X.Type()); ok {
-				add(nt, fnShort(f), w.pos(st.Pos()))
+				for _, h := range hostParts(fnShort(f)) {
+					add(nt, h, w.pos(st.Pos()))
+				}
 			}
 		})
 	}
@@ -69,7 +71,9 @@ func (w *World) irWriters() map[string]map[string]string {
 		ast.Inspect(fi.Decl.Body, func(n ast.Node) bool {
 			if cl, ok := n.(*ast.CompositeLit); ok {
 				if nt, ok := isIR(fi.Pkg.TypesInfo.TypeOf(cl)); ok {
-					add(nt, k, w.pos(cl.Pos()))
+					for _, h := range hostParts(w.hostKey(k)) {
+						add(nt, h, w.pos(cl.Pos()))
+					}
 				}
 			}
 			return true
